@@ -26,6 +26,11 @@ CHECKS = {
         technique="property-based testing; certificate validity predicate from brute-force reference semantics",
         text="Multi-component-biased generator; every DC/DS problem with certificate: certificate present exactly when promised, is a reference extension (complete for DC-PR), contains / omits the argument, members are the framework's own arguments (label and id) once each.",
         note="trusted: oracle.rs, CaDiCaL; <=13 arguments"),
+    "C07": dict(
+        cat="exploration", ref="4 C07",
+        technique="property-based testing + exhaustive small scope against the disjunctive reference answer",
+        text="Frameworks biased to several components with lists of 1-3 arguments (free, attack endpoints, one per component, repetitions); all static solver types x encoders x credulous/skeptical x both entry points on fresh solvers; status must equal the disjunction over the brute-force extensions, certificates valid for the disjunction. Exhaustive: all graphs on <=3 arguments x all lists of length <=2 (quick) / <=3 (thorough).",
+        note="trusted: oracle.rs, CaDiCaL; <=12 arguments"),
 }
 
 NOT_YET = "check not built yet in this session (work in progress; see DESIGN.md section 4 for the planned check)"
